@@ -1069,7 +1069,7 @@ func (u *Unit) isaOrigin(fn string, named types.Type, v Term) {
 	}
 	oid := u.Prog.TypeIDs.ID(n.Origin())
 	u.D.Fun("torigin", SInt, SInt)
-	if strings.Contains(v.S, "?") {
+	if strings.Contains(v.S, "?") || !u.BV {
 		x := u.D.Bound("x", SVal)
 		u.D.Axiom("isa-origin:"+fn, Forall([]Term{x}, Imp(App(fn, SBool, x), Same(App("torigin", SInt, u.rtype(x)), IntLit(int64(oid)))), []Term{App(fn, SBool, x)}).S)
 		return
@@ -1079,7 +1079,7 @@ func (u *Unit) isaOrigin(fn string, named types.Type, v Term) {
 
 // a value whose dynamic type is a concrete (generic) named type is not the nil interface
 func (u *Unit) isaTyped(fn string, v Term) {
-	if strings.Contains(v.S, "?") {
+	if strings.Contains(v.S, "?") || !u.BV {
 		x := u.D.Bound("x", SVal)
 		u.D.Axiom("isa-typed:"+fn, Forall([]Term{x}, Imp(App(fn, SBool, x), Not(u.untyped(x))), []Term{App(fn, SBool, x)}).S)
 		return
@@ -1115,7 +1115,11 @@ func (u *Unit) convert(v Value, target types.Type, env *Env) Value {
 				// a value whose static type is the type parameter T has dynamic type T (or is the nil interface)
 				fn := dynIsName(tp)
 				u.D.Fun(fn, SBool, SVal)
-				env.assume(Imp(Not(u.untyped(v.Term)), App(fn, SBool, v.Term)))
+				tf := Imp(Not(u.untyped(v.Term)), App(fn, SBool, v.Term))
+				if u.inClosure > 0 {
+					u.calleeFacts[tf.S] = true // a typing fact, not a condition on the arguments
+				}
+				env.assume(tf)
 				u.tparamWitness[fn] = append(u.tparamWitness[fn], v.Term)
 			}
 		}
